@@ -814,14 +814,25 @@ func (w *World) progress(releaseAcks bool) bool {
 	return did
 }
 
+// SettleNoAcks is Settle without releasing late backend acknowledgements.
+func (w *World) SettleNoAcks() { w.settle(false) }
+
+// AdvanceRaw lets virtual time pass without settling afterwards.
+func (w *World) AdvanceRaw(d time.Duration) {
+	w.Note("advance-raw %v", d)
+	time.Sleep(d)
+}
+
 // Settle runs the system to quiescence: everything in flight is delivered,
 // write-delay timers fire, parked calls are released. Protocol timers
 // (keep-alive, token, kill, connect timeouts) do not fire.
-func (w *World) Settle() {
+func (w *World) Settle() { w.settle(true) }
+
+func (w *World) settle(acks bool) {
 	for i := 0; i < 100000; i++ {
 		wait()
 		w.Steps++
-		if w.progress(true) {
+		if w.progress(acks) {
 			continue
 		}
 		nw := rt.NextWake()
